@@ -20,7 +20,11 @@
 typedef unsigned __int128 u128;
 static u128 P10[39];
 
-#define ACC_MAX_UNITS 3 /* known finding dtostre-ecvt-accuracy: 2..ACC_MAX_UNITS units of the last requested digit */
+/* known finding dtostre-ecvt-accuracy: at precision 15 only, 2..ACC_MAX_UNITS units of the 15th digit.  Measured on the tree with the trimming
+ * repaired: 82 M precision-15 texts of a thorough run -> 2 units 1.9e5, 3 units 3.5e3, 4 units 29; 3e8 values aimed at |exponent| > 280 and
+ * subnormals -> 4 units ~700, 5 units 5, never 6; no text of precision 1..14 was ever 2 units off (7.6e8 texts).  6 leaves two orders of margin. */
+#define ACC_MAX_UNITS 6
+#define ACC_PRECISION 15
 
 enum { M_PRINTF = 0, M_DTOSTRE = 1 };
 enum { S_DOUBLE, S_FLOAT, S_DTOSTRE, S_RDOUBLE, S_RFLOAT, S__N };
@@ -34,9 +38,9 @@ enum {
     K_VAL_NONFINITE, K_VAL_NEGATIVE, K_VAL_SUBNORMAL, K_VAL_FLOAT_CHECKED, K_VALUES,
     K_PF_MATCH, K_PF_FIXED, K_PF_EXPONENT, K_PF_EXACT_TIE, K_PF_TIE_OTHER, K_PF_SLOW, K_PF_DOUBLE, K_PF_FLOAT, K_PF_RESULT,
     K_DT_CALLS, K_DT_EXACT, K_DT_ONE_UNIT, K_DT_ONE_UNIT_SHORTER, K_DT_UNTRIMMED, K_DT_MORE_DIGITS, K_DT_FIXED, K_DT_EXPONENT, K_DT_ZERO_TEXT,
-    K_DT_SITE_DOUBLE, K_DT_SITE_FLOAT, K_DT_SITE_RESULT, K_DT_FLAGS_SAME, K_DT_FLAGS_DIFF,
+    K_DT_SITE_DOUBLE, K_DT_SITE_FLOAT, K_DT_SITE_RESULT, K_DT_FLAGS_SAME, K_DT_FLAGS_DIFF, K_DT_SHAPE_G, K_DT_SHAPE_NOT_G, K_DT_EXP_ONE_DIGIT,
     K_DIST0, K_DIST1, K_DIST2, K_DIST3, K_DIST4, K_DIST5, K_DIST6, K_DIST7, K_DIST8, K_DIST9, K_DIST10PLUS,
-    K_ACC_P01, K_ACC_P15 = K_ACC_P01 + 14, K_ACC_SITE_HELPER, K_ACC_EXP_LT100, K_ACC_EXP_GE100, K_ACC_PREFIX_SHAPE,
+    K_ACC_P01, K_ACC_P15 = K_ACC_P01 + 14, K_ACC_SITE_HELPER, K_ACC_EXP_LT20, K_ACC_EXP_LT50, K_ACC_EXP_LT100, K_ACC_EXP_LT200, K_ACC_EXP_GE200, K_ACC_PREFIX_SHAPE,
     K_CALLS_P01, K_CALLS_P15 = K_CALLS_P01 + 14,
     K_SP_NAN, K_SP_NEG_NAN, K_SP_INF, K_SP_NEG_INF, K_SP_OTHER,
     K_RECORDS, K_RESULT_CALLS, K__N
@@ -47,10 +51,10 @@ static const char * const kname[K__N] = {
     "value.nonfinite", "value.negative", "value.subnormal", "value.float_checked", "values",
     "printf.match_fast", "printf.fixed_notation", "printf.exponent_notation", "printf.exact_tie", "printf.tie_other_neighbour", "printf.slow_path", "printf.double", "printf.float", "printf.result",
     "dtostre.calls", "dtostre.equal_to_rounded", "dtostre.one_unit_off", "dtostre.one_unit_off_and_shorter", "dtostre.untrimmed_trailing_zero", "dtostre.more_digits_than_precision", "dtostre.fixed_notation", "dtostre.exponent_notation", "dtostre.zero_text_for_nonzero",
-    "dtostre.via_DoubleToStr", "dtostre.via_FloatToStr", "dtostre.via_Result", "dtostre.flags_same_after_normalising", "dtostre.flags_differ",
+    "dtostre.via_DoubleToStr", "dtostre.via_FloatToStr", "dtostre.via_Result", "dtostre.flags_same_after_normalising", "dtostre.flags_differ", "dtostre.shape_is_g_layout_of_own_digits", "dtostre.shape_differs_from_g_layout", "dtostre.exponent_fewer_than_two_digits",
     "dist.0", "dist.1", "dist.2", "dist.3", "dist.4", "dist.5", "dist.6", "dist.7", "dist.8", "dist.9", "dist.10plus",
     "acc.p01", "acc.p02", "acc.p03", "acc.p04", "acc.p05", "acc.p06", "acc.p07", "acc.p08", "acc.p09", "acc.p10", "acc.p11", "acc.p12", "acc.p13", "acc.p14", "acc.p15",
-    "acc.via_helper", "acc.absexp_lt100", "acc.absexp_ge100", "acc.text_is_prefix_of_rounded",
+    "acc.via_helper", "acc.absexp_000_019", "acc.absexp_020_049", "acc.absexp_050_099", "acc.absexp_100_199", "acc.absexp_200_plus", "acc.text_is_prefix_of_rounded",
     "calls.p01", "calls.p02", "calls.p03", "calls.p04", "calls.p05", "calls.p06", "calls.p07", "calls.p08", "calls.p09", "calls.p10", "calls.p11", "calls.p12", "calls.p13", "calls.p14", "calls.p15",
     "spelling.nan", "spelling.neg_nan", "spelling.inf", "spelling.neg_inf", "spelling.other",
     "records.written", "result.calls"
@@ -284,6 +288,12 @@ static void check_printf_text(valref_t * vr, int site, int P, const char * text)
     }
 }
 
+static const char * reftxt(const ref_t * R) {
+    static char b[4][40]; static int k; char * o = b[k++ & 3];
+    if (R->p > 1) snprintf(o, 40, "%c.%se%d", R->dig[0], R->dig + 1, R->X); else snprintf(o, 40, "%ce%d", R->dig[0], R->X);
+    return o;
+}
+
 /* ---- oracle: dtostre, one-unit tolerance -------------------------------------------------------------------- */
 static void check_dtostre_text(valref_t * vr, int site, int p, const char * text) {
     num_t T; int pr; unsigned d; const ref_t * R;
@@ -302,7 +312,7 @@ static void check_dtostre_text(valref_t * vr, int site, int p, const char * text
     R = ref_get(vr, p);
     if (T.m == 0) {
         CNT(K_DT_ZERO_TEXT);
-        vh_violation("C16:dtostre-trim-drops-digits", "%s(bits 0x%016llx = %.17g, precision %d) -> \"%s\": no significant digit left (correctly rounded: %se%d with digits %s)", site_name[site], (unsigned long long) bits_of(vr->v), vr->v, p, vh_esc(text, strlen(text)), vr->neg ? "-" : "", R->X, R->dig);
+        vh_violation("C16:dtostre-trim-drops-digits", "%s(bits 0x%016llx = %.17g, precision %d) -> \"%s\": no significant digit left (correctly rounded: %s)", site_name[site], (unsigned long long) bits_of(vr->v), vr->v, p, vh_esc(text, strlen(text)), reftxt(R));
         return;
     }
     if (T.neg != vr->neg) {
@@ -326,6 +336,14 @@ static void check_dtostre_text(valref_t * vr, int site, int p, const char * text
     }
     kval[d >= 10 ? K_DIST10PLUS : K_DIST0 + (int) d]++;
     if (T.nd > p) CNT(K_DT_MORE_DIGITS);
+    if (T.has_exp && T.exp_digits < 2) CNT(K_DT_EXP_ONE_DIGIT);
+    if (T.nd <= p) { /* layout is not part of the property for this formatter: observe whether it is the %g layout of its own digits */
+        char pad[24], g[64]; int i;
+        for (i = 0; i < p; i++) pad[i] = i < T.nd ? T.sig[i] : '0';
+        pad[p] = 0;
+        gfmt(T.neg, pad, p, T.X, g);
+        if (!strcmp(g, text)) CNT(K_DT_SHAPE_G); else CNT(K_DT_SHAPE_NOT_G);
+    }
     if (T.frac_trailing_zero) CNT(K_DT_UNTRIMMED);
     if (d == 0) { CNT(K_DT_EXACT); return; }
     if (d == 1) { CNT(K_DT_ONE_UNIT); if (T.nsig < R->nstrip) CNT(K_DT_ONE_UNIT_SHORTER); return; }
@@ -335,16 +353,16 @@ static void check_dtostre_text(valref_t * vr, int site, int p, const char * text
          * class lives in fixed notation with leading zeros (0.0ddd), the accuracy class far away from it (|exponent| > 15) */
         int prefix = T.X == R->X && T.nsig < R->nstrip && memcmp(T.sig, R->dig, (size_t) T.nsig) == 0;
         int leadzero = !T.has_exp && text[vr->neg] == '0' && text[vr->neg + 1] == '.';
-        if (d <= ACC_MAX_UNITS && !(prefix && leadzero)) {
+        if (p == ACC_PRECISION && d <= ACC_MAX_UNITS && !(prefix && leadzero)) {
             kval[K_ACC_P01 + p - 1] += site == S_DTOSTRE;
             if (site != S_DTOSTRE) CNT(K_ACC_SITE_HELPER);
-            if (site == S_DTOSTRE) { if (abs(R->X) < 100) CNT(K_ACC_EXP_LT100); else CNT(K_ACC_EXP_GE100); }
+            if (site == S_DTOSTRE) { int ax = abs(R->X); kval[ax < 20 ? K_ACC_EXP_LT20 : ax < 50 ? K_ACC_EXP_LT50 : ax < 100 ? K_ACC_EXP_LT100 : ax < 200 ? K_ACC_EXP_LT200 : K_ACC_EXP_GE200]++; }
             if (prefix) CNT(K_ACC_PREFIX_SHAPE);
-            vh_violation("C16:dtostre-ecvt-accuracy", "%s(bits 0x%016llx = %.17g, precision %d) -> \"%s\": well formed but %u units of digit %d away from the correctly rounded %c.%se%d", site_name[site], (unsigned long long) bits_of(vr->v), vr->v, p, vh_esc(text, strlen(text)), d, p, R->dig[0], R->dig + 1, R->X);
+            vh_violation("C16:dtostre-ecvt-accuracy", "%s(bits 0x%016llx = %.17g, precision %d) -> \"%s\": well formed but %u units of digit %d away from the correctly rounded %s", site_name[site], (unsigned long long) bits_of(vr->v), vr->v, p, vh_esc(text, strlen(text)), d, p, reftxt(R));
         } else if (prefix) {
-            vh_violation("C16:dtostre-trim-drops-digits", "%s(bits 0x%016llx = %.17g, precision %d) -> \"%s\": the significant digits stop after %d of the %d digits of the correctly rounded %c.%se%d although the dropped ones are not zeros", site_name[site], (unsigned long long) bits_of(vr->v), vr->v, p, vh_esc(text, strlen(text)), T.nsig, R->nstrip, R->dig[0], R->dig + 1, R->X);
+            vh_violation("C16:dtostre-trim-drops-digits", "%s(bits 0x%016llx = %.17g, precision %d) -> \"%s\": the significant digits stop after %d of the %d digits of the correctly rounded %s although the dropped ones are not zeros", site_name[site], (unsigned long long) bits_of(vr->v), vr->v, p, vh_esc(text, strlen(text)), T.nsig, R->nstrip, reftxt(R));
         } else {
-            vh_violation("C16:dtostre-value-far", "%s(bits 0x%016llx = %.17g, precision %d) -> \"%s\": %s%u units of digit %d away from the correctly rounded %c.%se%d", site_name[site], (unsigned long long) bits_of(vr->v), vr->v, p, vh_esc(text, strlen(text)), d >= 999 ? "more than " : "", d, p, R->dig[0], R->dig + 1, R->X);
+            vh_violation("C16:dtostre-value-far", "%s(bits 0x%016llx = %.17g, precision %d) -> \"%s\": %s%u units of digit %d away from the correctly rounded %s", site_name[site], (unsigned long long) bits_of(vr->v), vr->v, p, vh_esc(text, strlen(text)), d >= 999 ? "more than " : "", d, p, reftxt(R));
         }
     }
 }
